@@ -989,7 +989,12 @@ def run_tool(args, inputs, stdin=False, subproc=False):
     finally:
         signal.setitimer(signal.ITIMER_VIRTUAL, 0)
         sys.argv, sys.stdin, sys.stdout, sys.stderr = old
-    res['out'] = out.getvalue()
+    try:
+        res['out'] = out.getvalue()
+    except ValueError:
+        # the command closed the stream it was given for standard output (what --quiet does): nothing can have been written
+        res['out'] = ''
+        res['exc'] = res['exc'] or 'StdoutClosed'
     return res
 
 
